@@ -49,8 +49,10 @@ Pass(e) == IsEvent(e) /\ Keep(All)
 TPass == Pass("socket") \/ Pass("connect_call") \/ Pass("getsockopt") \/ Pass("close") \/ Pass("poll") \/ Pass("tick")
          \/ Pass("run_call") \/ Pass("env") \/ Pass("quiescent") \/ Pass("recv")
 \* the loop reports failure only after a refused allocation; the request is then gone without a callback (C14)
-TRunRet == /\ IsEvent("run_ret") /\ (Ev.rc = 0 \/ Ev.inj > 0 \/ fatal)
-           /\ fatal' = (fatal \/ Ev.rc # 0) /\ Keep(<<plan, rq, ncb, cancelled, started, done, sentok>>)
+\* (or when the caller's own callback returned non-zero: that value comes back unchanged and is nobody's failure)
+CbStop == Has("cbrc") /\ Ev.cbrc # 0 /\ Ev.rc = Ev.cbrc
+TRunRet == /\ IsEvent("run_ret") /\ (Ev.rc = 0 \/ Ev.inj > 0 \/ fatal \/ CbStop)
+           /\ fatal' = (fatal \/ (Ev.rc # 0 /\ ~CbStop)) /\ Keep(<<plan, rq, ncb, cancelled, started, done, sentok>>)
 \* bytes handed to the socket: always a prefix of the request as given (C09: sent verbatim)
 TSend == /\ IsEvent("send") /\ Ev.nosignal /\ Keep(All)
 TSent == /\ IsEvent("sent")
